@@ -51,13 +51,13 @@ func goEnv() []string {
 
 // Workspace is one woven scratch copy plus the harness binary built on it.
 type Workspace struct {
-	Dir     string
-	Flags   string // woven library copy
-	Exec    string // harness binary
-	Report  *weave.Report
-	WeaveS  float64
-	BuildS  float64
-	keep    bool
+	Dir    string
+	Flags  string // woven library copy
+	Exec   string // harness binary
+	Report *weave.Report
+	WeaveS float64
+	BuildS float64
+	keep   bool
 }
 
 func (w *Workspace) Cleanup() {
